@@ -279,11 +279,9 @@ impl<'a> IVP for Instr<'a> {
                 }
             }
             // nonsingular bidiagonal / tridiagonal masses (entries only inside the band the storage must provide)
-            "lowbi" | "upbi" | "tri" => {
+            "lowbi" | "upbi" | "tri" | "trineg" => {
                 for i in 0..n {
-                    m[(i, i)] = 1.0;
-                    if self.case.mass != "upbi" && i >= 1 { m[(i, i - 1)] = 0.5; }
-                    if self.case.mass != "lowbi" && i + 1 < n { m[(i, i + 1)] = 0.25; }
+                    for (j, v) in mass_row(&self.case.mass, n, i) { m[(i, j)] = v; }
                 }
             }
             // diagonal mass with the listed entries (zeros allowed: differential-algebraic system)
@@ -297,6 +295,15 @@ impl<'a> IVP for Instr<'a> {
             _ => {}
         }
     }
+}
+
+/// entries (column, value) of row i of the named nonsingular banded mass matrix
+pub fn mass_row(kind: &str, n: usize, i: usize) -> Vec<(usize, f64)> {
+    let (sub, sup) = match kind { "lowbi" => (0.5, 0.0), "upbi" => (0.0, 0.25), "tri" => (0.5, 0.25), _ => (-0.25, -0.375) };
+    let mut v = vec![(i, 1.0)];
+    if sub != 0.0 && i >= 1 { v.push((i - 1, sub)); }
+    if sup != 0.0 && i + 1 < n { v.push((i + 1, sup)); }
+    v
 }
 
 /// Recording + scripted SolOut for the low-level solvers.
@@ -470,12 +477,15 @@ fn restart_step(case: &Case, xold: f64, yold: &[f64], x: f64, ts: &[f64]) -> Opt
     let p = P(&case.problem);
     let mut g = Grab { ts, out: Vec::new(), steps: 0, xs: xold };
     let h = x - xold;
+    // the fresh run's interval is three steps long: its first step is an ordinary one (not the step that lands on xend),
+    // so that code special-casing the last step of a run cannot hide in both
+    let xe = x + 2.0 * h;
     let (rt, at) = (tol(&case.rtol, case.tol_vec), tol(&case.atol, case.tol_vec));
     let r = catch(|| match case.method.as_str() {
-        "RK4" => { let s = RK4::builder().dense_output(true).build(); s.solve(&p, xold, yold, x, h, Some(&mut g)).is_ok() }
-        "RK23" => RK23::builder().first_step(h).dense_output(true).build().solve(&p, xold, yold, x, rt, at, Some(&mut g)).is_ok(),
-        "DOPRI5" => DOPRI5::builder().first_step(h).dense_output(true).build().solve(&p, xold, yold, x, rt, at, Some(&mut g)).is_ok(),
-        _ => DOP853::builder().first_step(h).dense_output(true).build().solve(&p, xold, yold, x, rt, at, Some(&mut g)).is_ok(),
+        "RK4" => { let s = RK4::builder().dense_output(true).build(); s.solve(&p, xold, yold, xe, h, Some(&mut g)).is_ok() }
+        "RK23" => RK23::builder().first_step(h).dense_output(true).build().solve(&p, xold, yold, xe, rt, at, Some(&mut g)).is_ok(),
+        "DOPRI5" => DOPRI5::builder().first_step(h).dense_output(true).build().solve(&p, xold, yold, xe, rt, at, Some(&mut g)).is_ok(),
+        _ => DOP853::builder().first_step(h).dense_output(true).build().solve(&p, xold, yold, xe, rt, at, Some(&mut g)).is_ok(),
     });
     // only a fresh run whose first accepted step is the same step is comparable
     if r.ok() == Some(true) && g.steps == 1 && g.out.len() == ts.len() && (g.xs - x).abs() <= 4.0 * f64::EPSILON * x.abs().max(xold.abs()) { Some(g.out) } else { None }
@@ -973,8 +983,62 @@ fn ret_line(case: &Case, s: &Solution, rk: &Ranker, fs_fact: Value, dir: f64, ti
         }
         dae = json!({"has": true, "res_ok": res_ok, "solved": solved, "ref_ok": ref_ok});
     }
+    // first_step (not larger than max_step or the span, no t_eval): the first reported interval is first_step - once the
+    // run has got that far, the sample after x0 is x0 +- |first_step| (the handler pins it there)
+    let mut fs_iv = json!({"has": false, "ok": true});
+    if let Some(h0) = case.first_step {
+        let appl = case.t_eval.is_none() && h0 != 0.0 && h0.abs() <= (case.xend - case.x0).abs() && case.max_step.map(|m| h0.abs() <= m.abs()).unwrap_or(true);
+        let target = case.x0 + dir * h0.abs();
+        if appl && s.t.len() >= 2 && s.t.iter().any(|t| dir * (*t - target) >= 0.0) {
+            fs_iv = json!({"has": true, "ok": (s.t[1] - target).abs() <= ulps(target.abs().max(case.x0.abs()), 4.0)});
+        }
+    }
+    // nonsingular non-identity mass: the result agrees with integrating y' = M^-1 f directly (DOP853 at 1e-11)
+    let mut massref = json!({"has": false, "ok": true});
+    if matches!(case.mass.as_str(), "lowbi" | "upbi" | "tri" | "trineg") && case.problem.copies == 1 && n > 0
+        && (s.status == Status::Success || case.max_steps.is_none()) {
+        struct Inv<'a> { p: &'a Problem, kind: &'a str, n: usize }
+        impl<'a> IVP for Inv<'a> {
+            fn ode(&self, x: f64, y: &[f64], d: &mut [f64]) {
+                let n = self.n;
+                let mut a = vec![0.0; n * n];
+                for i in 0..n { for (j, v) in mass_row(self.kind, n, i) { a[i * n + j] = v; } }
+                let mut b = vec![0.0; n];
+                self.p.f(x, y, &mut b);
+                // Gaussian elimination with partial pivoting (n <= 4)
+                for k in 0..n {
+                    let mut piv = k;
+                    for r in k + 1..n { if a[r * n + k].abs() > a[piv * n + k].abs() { piv = r; } }
+                    if piv != k { for c in 0..n { a.swap(k * n + c, piv * n + c); } b.swap(k, piv); }
+                    for r in k + 1..n {
+                        let f = a[r * n + k] / a[k * n + k];
+                        for c in k..n { a[r * n + c] -= f * a[k * n + c]; }
+                        b[r] -= f * b[k];
+                    }
+                }
+                for k in (0..n).rev() {
+                    let mut v = b[k];
+                    for c in k + 1..n { v -= a[k * n + c] * d[c]; }
+                    d[k] = v / a[k * n + k];
+                }
+            }
+        }
+        let inv = Inv { p: &case.problem, kind: case.mass.as_str(), n };
+        let o = Options::builder().method(Method::DOP853).rtol(Tolerance::Scalar(1e-11)).atol(Tolerance::Scalar(1e-13)).build();
+        // the reference runs over the whole interval: where it succeeds (the problem is solvable) Radau must succeed too
+        let solved = s.status == Status::Success;
+        let tl = if solved { *s.t.last().unwrap() } else { case.xend };
+        let thr = 1.0e3 * (case.rtol[0] + case.atol[0]);
+        if let Ok(Ok(r)) = catch(|| solve_ivp(&inv, case.x0, tl, &case.y0, o)) {
+            if r.status == Status::Success {
+                let (ya, yb) = (s.y.last().unwrap(), r.y.last().unwrap());
+                let ok = solved && ya.iter().zip(yb.iter()).all(|(a, b)| (a - b).abs() <= thr * (1.0 + b.abs()));
+                massref = json!({"has": true, "ok": ok});
+            }
+        }
+    }
     json!({
-        "e": "ret", "id": case.id, "kind": "sol", "status": status_name(s.status), "tiny": tiny, "dae": dae,
+        "e": "ret", "id": case.id, "kind": "sol", "status": status_name(s.status), "tiny": tiny, "dae": dae, "massref": massref, "fs_iv": fs_iv,
         "t": s.t.iter().map(|t| tj(*t)).collect::<Vec<_>>(),
         "ylen": s.y.len(), "ydims_ok": s.y.iter().all(|v| v.len() == n), "finite": finite,
         "yd": s.t.iter().zip(s.y.iter()).map(|(t, y)| mdigest(&case.map, *t, y)).collect::<Vec<_>>(),
